@@ -13,7 +13,7 @@ void cls_case(const uint32_t *mat, int n, uint32_t side) {
   int c0 = 0, c1 = 0;
   for (int s = 0; s < 64; s++) { c0 += S.b[s] != 0; c1 += T.b[s] != 0; }
   int wcap = c1 < c0, wquiet = !wcap && m.promo == 0;
-  int wchk = s_attacked(&T, s_king_sq(&T, 1 - side), side);
+  int wchk = S_ATTACKED(&T, s_king_sq(&T, 1 - side), side);
   _Bool cap = _ZNK6engine8Position15move_is_captureEj(&P, mv);
   _Bool quiet = _ZNK6engine8Position13move_is_quietEj(&P, mv);
   _Bool chk = _ZNK6engine8Position16move_gives_checkEj(&P, mv);
